@@ -399,11 +399,19 @@ def worker(job):
                           'commits': o['commits'], 'final': o['final']})
             meta[lid] = {'label': label, 'schedule': ''.join(o['schedule']),
                          'executed': o['executed']}
-            key = json.dumps([[r['status'] for r in o['resps']], o['final']], sort_keys=True)
+            # the commits that changed the abstract database, in commit order
+            eff = []
+            prev = db0
+            for cm in o['commits']:
+                if cm['post'] != prev:
+                    eff.append({'who': cm['who'], 'post': cm['post']})
+                    prev = cm['post']
+            key = json.dumps([[r['status'] for r in o['resps']], o['final'], eff], sort_keys=True)
             ob = observed.setdefault(idx, {})
             if key not in ob:
                 ob[key] = {'statuses': [r['status'] for r in o['resps']],
-                           'final': o['final'], 'schedule': ''.join(o['schedule'])}
+                           'final': o['final'], 'commits': eff,
+                           'schedule': ''.join(o['schedule'])}
         complete += 1 if ex.complete else 0
         if ex.complete:
             complete_idx.append(idx)
